@@ -536,6 +536,100 @@ pub fn random_program(rseed: u64) -> Option<String> {
     let _ = std::fs::remove_dir_all(&r);
     res.map(|w| format!("[random program {rseed}: {}] {w} (C03/C10/C11/C12)", trace.join("; ")))
 }
+// ---- thorough tier: CONCURRENT random programs + a linearizability check (Wing & Gong style search) ----
+#[derive(Clone, Debug)]
+enum COp { Put(String, Option<Hash>, Vec<u8>), Del(String, Option<Hash>) }
+struct Rec { op: COp, resp: Option<Response>, t0: std::time::Instant, t1: std::time::Instant }
+type Model = std::collections::BTreeMap<String, Vec<u8>>;
+/// the one-at-a-time semantics of the property: a write or delete takes effect exactly when the current hash equals `expected`
+fn seq_apply(m: &mut Model, op: &COp) -> Response {
+    match op {
+        COp::Put(p, exp, c) => { let cur = m.get(p).map(|b| h(b)); if cur == *exp { m.insert(p.clone(), c.clone()); Response::PutResult { committed: true, current: Some(h(c)) } } else { m.insert(format!("{p}.conflict-{}", crate::cli::wire::short_hash(&h(c))), c.clone()); Response::PutResult { committed: false, current: cur } } }
+        COp::Del(p, exp) => { let cur = m.get(p).map(|b| h(b)); if cur == *exp { m.remove(p); Response::DeleteResult { deleted: true, current: None } } else { Response::DeleteResult { deleted: false, current: cur } } }
+    }
+}
+fn same_reply(a: &Response, b: &Response) -> bool {
+    match (a, b) { (Response::PutResult { committed: c1, current: u1 }, Response::PutResult { committed: c2, current: u2 }) => c1 == c2 && u1 == u2,
+                   (Response::DeleteResult { deleted: d1, current: u1 }, Response::DeleteResult { deleted: d2, current: u2 }) => d1 == d2 && u1 == u2, _ => false }
+}
+/// is there an order of all operations, respecting "A answered before B was sent", whose replies and final tree are the observed ones?
+fn linearizable(recs: &[Rec], done: &mut Vec<bool>, m: &Model, fin: &Model, left: usize) -> bool {
+    if left == 0 { return m == fin; }
+    for i in 0..recs.len() {
+        if done[i] { continue; }
+        // i may come next only if no other pending operation had already been answered before i was sent
+        if (0..recs.len()).any(|j| j != i && !done[j] && recs[j].t1 < recs[i].t0) { continue; }
+        let mut m2 = m.clone();
+        let want = seq_apply(&mut m2, &recs[i].op);
+        if recs[i].resp.as_ref().map(|r| same_reply(r, &want)).unwrap_or(false) {
+            done[i] = true;
+            if linearizable(recs, done, &m2, fin, left - 1) { done[i] = false; return true; }
+            done[i] = false;
+        }
+    }
+    false
+}
+pub fn concurrent_program(rseed: u64) -> Option<String> {
+    let mut rng = crate::rng::Rng(rseed ^ 0xC0_4C00);
+    let r = root(&format!("conc{rseed}"));
+    let mut init = Model::new();
+    init.insert("a".into(), b"a-initial".to_vec()); init.insert("d/b".into(), b"b-initial".to_vec());
+    for (p, c) in &init { let f = r.join(p); if let Some(d) = f.parent() { let _ = std::fs::create_dir_all(d); } let _ = std::fs::write(f, c); }
+    let b = std::env::var("COPIA_BIN").ok()?;
+    let nclients = 2 + rng.below(2) as usize;
+    // one of the servers runs with every flock() entry delayed (strace fault injection): that stretches the window between
+    // whatever it does before taking the commit lock and the lock itself
+    let delayed = rng.below(nclients as u64) as usize; let delay_us = 20_000 + rng.below(150_000);
+    let mut handles = vec![];
+    let nops = 2 + rng.below(2);
+    // every client issues its k-th request at the same moment (a barrier per round): the requests really overlap
+    let barrier = std::sync::Arc::new(std::sync::Barrier::new(nclients));
+    for ci in 0..nclients {
+        let barrier = barrier.clone();
+        let mut srv = if ci == delayed {
+            let mut c = Command::new("strace").args(["-f", "-qq", "-o", "/dev/null", "-e", "trace=flock", "-e", &format!("inject=flock:delay_enter={delay_us}")]).arg(&b).arg("serve").arg(&r)
+                .stdin(Stdio::piped()).stdout(Stdio::piped()).stderr(Stdio::null()).spawn().ok()?;
+            Srv { w: c.stdin.take()?, r: BufReader::new(c.stdout.take()?), child: c }
+        } else { Srv::start(&r)? };
+        srv.magic();
+        let mut plan = vec![];
+        // biased towards the contended case: same path, Put, expected = what this client last saw
+        for k in 0..nops { plan.push((if rng.below(5) == 0 { 1 } else { 0 }, if rng.below(7) == 0 { 0 } else { 1 }, if rng.below(10) == 0 { 0 } else { 1 }, format!("client{ci}-op{k}-{rseed}").into_bytes())); }
+        let init2 = init.clone();
+        handles.push(std::thread::spawn(move || {
+            let mut view: std::collections::BTreeMap<String, Option<Hash>> = init2.iter().map(|(p, c)| (p.clone(), Some(h(c)))).collect();
+            let mut out = vec![];
+            for (pi, kind, stale, content) in plan {
+                let p = if pi == 0 { "a" } else { "d/b" }.to_string();
+                let exp = if stale == 0 { None } else { view.get(&p).cloned().flatten() };
+                let op = if kind == 0 { COp::Del(p.clone(), exp) } else { COp::Put(p.clone(), exp, content.clone()) };
+                barrier.wait();
+                let t0 = std::time::Instant::now();
+                let resp = match &op { COp::Put(p, e, c) => srv.put(p, *e, c), COp::Del(p, e) => { srv.send(&Request::Delete { path: p.clone(), expected: *e }); srv.recv(20) } };
+                let t1 = std::time::Instant::now();
+                match (&op, &resp) {
+                    (COp::Put(_, _, c), Some(Response::PutResult { committed: true, .. })) => { view.insert(p.clone(), Some(h(c))); }
+                    (_, Some(Response::PutResult { committed: false, current })) | (_, Some(Response::DeleteResult { deleted: false, current })) => { view.insert(p.clone(), *current); }
+                    (_, Some(Response::DeleteResult { deleted: true, .. })) => { view.insert(p.clone(), None); }
+                    _ => {}
+                }
+                out.push(Rec { op, resp, t0, t1 });
+            }
+            let _ = srv.close_and_wait(5);
+            out
+        }));
+    }
+    let mut recs: Vec<Rec> = vec![];
+    for hd in handles { if let Ok(v) = hd.join() { recs.extend(v); } }
+    let fin: Model = live_files(&r).into_iter().filter(|(p, _)| !p.ends_with(".copia-tmp")).collect();
+    let _ = std::fs::remove_dir_all(&r);
+    if recs.iter().any(|x| !matches!(x.resp, Some(Response::PutResult { .. }) | Some(Response::DeleteResult { .. }))) { return None; }      // a timed-out / error reply: not a history this check judges
+    let mut done = vec![false; recs.len()];
+    if linearizable(&recs, &mut done, &init, &fin, recs.len()) { return None; }
+    let show: Vec<String> = recs.iter().map(|x| format!("{} -> {}", match &x.op { COp::Put(p, e, c) => format!("Put({p}, expected {}, '{}')", if e.is_some() { "Some" } else { "None" }, String::from_utf8_lossy(c)), COp::Del(p, e) => format!("Delete({p}, expected {})", if e.is_some() { "Some" } else { "None" }) },
+        match &x.resp { Some(Response::PutResult { committed, .. }) => format!("committed:{committed}"), Some(Response::DeleteResult { deleted, .. }) => format!("deleted:{deleted}"), _ => "?".into() })).collect();
+    Some(format!("[concurrent program {rseed}: {nclients} servers, one with flock delayed {delay_us} us] the replies {show:?} and the final hub tree {:?} are those of NO one-at-a-time execution of the same requests that respects their real-time order (C03)", fin.iter().map(|(p, c)| format!("{p}='{}'", String::from_utf8_lossy(c))).collect::<Vec<_>>()))
+}
 pub fn search_t(contract: &str, as_twin: bool, seed: u64, budget: u64) -> i32 {
     let rc = search(contract, as_twin);
     if budget > 30 && !std::env::var("COPIA_BIN").unwrap_or_default().is_empty() {
@@ -546,6 +640,15 @@ pub fn search_t(contract: &str, as_twin: bool, seed: u64, budget: u64) -> i32 {
             if let Some(what) = random_program(rseed) { println!("WITNESS {{\"kind\":\"serve\",\"scenario\":9999,\"rseed\":{rseed},\"name\":\"random-{rseed}\",\"what\":\"{}\"}}", what.replace('"', "'").replace('\n', " ")); }
             n += 1;
         }
+        // concurrent programs with a linearizability check: half of the remaining budget again
+        let t1 = std::time::Instant::now();
+        let mut m = 0u64;
+        while t1.elapsed().as_secs() < budget.min(60) / 2 && m < 400 {
+            let rseed = seed.wrapping_mul(1000).wrapping_add(m);
+            if let Some(what) = concurrent_program(rseed) { println!("WITNESS {{\"kind\":\"serve\",\"scenario\":9998,\"rseed\":{rseed},\"name\":\"concurrent-{rseed}\",\"what\":\"{}\"}}", what.replace('"', "'").replace('\n', " ").replace('\\', "/")); }
+            m += 1;
+        }
+        n += m;
         if as_twin { println!("CASES {}", scenarios().len() as u64 + n); }
     }
     rc
@@ -565,6 +668,11 @@ pub fn search(contract: &str, as_twin: bool) -> i32 {
 }
 pub fn run_w(w: &str) -> i32 {
     let i = json_u64(w, "scenario").unwrap_or(0) as usize;
+    if i == 9998 {
+        // a schedule-dependent witness: try the same program a few times
+        for _ in 0..8 { if let Some(what) = concurrent_program(json_u64(w, "rseed").unwrap_or(0)) { println!("REPRODUCED: {what}"); return 1; } }
+        println!("not reproduced in 8 runs of the same concurrent program (the witness depends on the OS schedule)"); return 0;
+    }
     if i == 9999 { return match random_program(json_u64(w, "rseed").unwrap_or(0)) { Some(what) => { println!("REPRODUCED: {what}"); 1 } None => { println!("not reproduced: the random program behaves as its sequential execution"); 0 } }; }
     let sc = scenarios();
     let (name, f) = &sc[i.min(sc.len() - 1)];
